@@ -5,23 +5,68 @@ From Qv Require Import Common.Bytes Gen.GenNetio Gen.GenSession Model.NetRead Mo
 
 (** Message: when smtp_data reaches the terminating dot ([D_eod]), what was written to qmail-queue is the
     trace header followed by exactly the client's data lines [seen], in order, each with CRLF turned into LF and
-    one leading dot removed ([stored]); [seen] are precisely the lines the client transmitted before the lone dot
-    ([wire seen ++ ".CRLF"] is what was consumed from the connection), none of them contains CR or LF or is
-    the lone dot.  For every reader state, byte stream and segmentation. *)
+    one leading dot removed ([stored]) - in submission mode (TCPLOCALPORT 587, [d_subm]) with the added fields
+    ([subm_fields], see C02_submission_additions) between the last header line and the empty line that starts the body,
+    and nothing else anywhere; on every other port nothing at all is added.  [seen] are precisely the lines the client
+    transmitted before the lone dot ([wire seen ++ ".CRLF"] is what was consumed from the connection), none of them
+    contains CR or LF or is the lone dot; [hdr_part seen] are the lines before the first empty one, [body_part seen]
+    the rest.  For every reader state, byte stream and segmentation. *)
 Theorem C02_message : forall fuel o dc r trace msg sz seen r',
   rstate_ok r -> data_loop fuel o dc r trace = (D_eod msg sz seen, r') ->
-  msg = trace ++ stored seen
+  msg = trace ++ stored (hdr_part seen) ++ (if d_subm dc then subm_fields (par_of dc) (hdr_part seen) else []) ++ stored (body_part seen)
+  /\ hdr_part seen ++ body_part seen = seen
+  /\ (d_subm dc = false -> msg = trace ++ stored seen)
   /\ total r = wire seen ++ [DOT; CR; LF] ++ total r'
   /\ Forall data_line seen.
 Proof.
   intros fuel o dc r trace msg sz seen r' Hok H.
-  pose proof (data_loop_spec fuel o dc r trace _ r' Hok H) as X. cbn in X. tauto.
+  pose proof (data_loop_spec fuel o dc r trace _ r' Hok H) as X. cbn in X.
+  destruct X as (Hm & Ht & Hall & _).
+  split; [exact Hm|]. split; [apply hdr_body_part|]. split; [|tauto].
+  intros Hs. rewrite Hm. now rewrite (queued_off (par_of dc) seen Hs).
 Qed.
 Print Assumptions C02_message.
 
+(** Submission mode: what is added is exactly the missing ones of the three fields, in the order Date, From,
+    Message-Id, each at most once, each a single line:
+      "Date: " <date of the Received: line> LF          unless a header line starts with "Date:" (any case)
+      "From: <" <sender of MAIL FROM> ">" LF            unless a header line starts with "From:"
+      "Message-Id: <" <sec.usec> "@" <msgidhost> ">" LF unless a header line starts with "Message-Id:"
+    where "header line" is a line before the first empty line that, as transmitted, does not start with a dot
+    ([field_present]; see C02_submission_full_refuted for lines that do).  The literal pieces are regenerated from
+    qsmtpd/data.c (Gen/GenSession.v).  With all three present, and on every other port, nothing is added. *)
+Theorem C02_submission_additions : forall fuel o dc r trace msg sz seen r',
+  rstate_ok r -> data_loop fuel o dc r trace = (D_eod msg sz seen, r') ->
+  let hdr := hdr_part seen in
+  exists add, msg = trace ++ stored hdr ++ add ++ stored (body_part seen)
+    /\ (d_subm dc = false -> add = [])
+    /\ (d_subm dc = true ->
+        add = (if field_present s_hdr_date hdr then [] else SUBM_DATE_PFX ++ d_date dc ++ [LF])
+              ++ (if field_present s_hdr_from hdr then [] else SUBM_FROM_PFX ++ d_from dc ++ SUBM_FROM_END)
+              ++ (if field_present s_hdr_msgid hdr then [] else SUBM_MSGID_PFX ++ d_stamp dc ++ SUBM_MSGID_AT ++ d_idhost dc ++ SUBM_MSGID_END))
+    /\ (field_present s_hdr_date hdr = true -> field_present s_hdr_from hdr = true -> field_present s_hdr_msgid hdr = true -> add = []).
+Proof.
+  intros fuel o dc r trace msg sz seen r' Hok H hdr.
+  pose proof (data_loop_spec fuel o dc r trace _ r' Hok H) as X. cbn in X. destruct X as (Hm & _).
+  exists (if d_subm dc then subm_fields (par_of dc) hdr else []). split; [exact Hm|].
+  split; [intros ->; reflexivity|]. split; [intros ->; reflexivity|].
+  intros H1 H2 H3. unfold subm_fields. rewrite H1, H2, H3. destruct (d_subm dc); reflexivity.
+Qed.
+Print Assumptions C02_submission_additions.
+
+(** the pieces are what RfC 5322 calls them; the sender the From field carries is the one of the transaction:
+    smtp_data is run with [d_from] = xmitstat.mailfrom, [d_subm] = (port is 587) - by definition of h_data, see
+    C02_submission_parameters *)
+Theorem C02_submission_constants :
+  SUBM_PORT = [53; 56; 55]%N /\ HDR_PATTERNS = [s_hdr_date; s_hdr_from; s_hdr_msgid]
+  /\ SUBM_DATE_PFX = [68; 97; 116; 101; 58; 32]%N /\ SUBM_FROM_PFX = [70; 114; 111; 109; 58; 32; 60]%N /\ SUBM_FROM_END = [62; LF]%N
+  /\ SUBM_MSGID_PFX = [77; 101; 115; 115; 97; 103; 101; 45; 73; 100; 58; 32; 60]%N /\ SUBM_MSGID_AT = [64]%N /\ SUBM_MSGID_END = [62; LF]%N.
+Proof. repeat split. Qed.
+Print Assumptions C02_submission_constants.
+
 (** the checker that judges the message of every hand-off of the IMPLEMENTATION in the correspondence runs accepts the model *)
 Theorem C02_message_checker_sound : forall fuel o dc r trace msg sz seen r',
-  rstate_ok r -> data_loop fuel o dc r trace = (D_eod msg sz seen, r') -> handoff_msg_ok seen msg = true.
+  rstate_ok r -> data_loop fuel o dc r trace = (D_eod msg sz seen, r') -> handoff_msg_ok (par_of dc) seen msg = true.
 Proof. exact handoff_msg_sound. Qed.
 Print Assumptions C02_message_checker_sound.
 
@@ -53,7 +98,8 @@ Example C02_nonvacuous :
   let o := {| o_helo := fun _ => true;
               o_addr := fun _ arg => match arg with 60%N :: c :: _ => AP_ok [c] None RLocal | _ => AP_nobracket end;
               o_ext := fun _ => Ext_ok 0 0 None; o_relay := 0%Z; o_mx := fun _ => 0; o_qq := fun _ => QQ_ok;
-              o_databytes := 0%N; o_liphost := []; o_check2822 := false; o_authperm := false; o_auth := fun _ => Auth_multi; o_trace := fun _ _ _ _ _ _ => [88; 10]%N |} in
+              o_databytes := 0%N; o_liphost := []; o_check2822 := false; o_authperm := false; o_auth := fun _ => Auth_multi; o_trace := fun _ _ _ _ _ _ => [88; 10]%N;
+              o_submission := false; o_subm_date := []; o_subm_stamp := []; o_msgidhost := [] |} in
   filter (fun e => match e with Handoff _ _ => true | _ => false end)
     (run_session o [ [72;69;76;79;32;120;13;10]; [77;65;73;76;32;70;82;79;77;58;60;97;62;13;10];
                      [82;67;80;84;32;84;79;58;60;98;62;13;10]; [68;65;84;65;13;10];
